@@ -21,6 +21,10 @@ pub mod std_gaps {
         requires o is Some ==> call_requires(f, (o->0,)),
         ensures (match o { None => r == default, Some(x) => call_ensures(f, (x,), r) });
 
+    /// integer bit-counting helpers (values left uninterpreted; only the ranges are assumed)
+    pub uninterp spec fn usize_trailing_zeros(x: usize) -> u32;
+    pub assume_specification[ usize::trailing_zeros ](x: usize) -> (r: u32)
+        ensures r == usize_trailing_zeros(x), r <= 64;
     pub assume_specification<T: core::cmp::Ord>[ core::cmp::max ](a: T, b: T) -> (r: T)
         ensures
             <T as OrdSpec>::obeys_cmp_spec() ==> r == (if a.cmp_spec(&b) == core::cmp::Ordering::Greater { a } else { b });
